@@ -62,6 +62,7 @@ type mailbox struct {
 	parked uint32 // 1: the task is parked (or done) and has published pend
 	goFlag uint32 // 1: the scheduler has released the task
 	budget int64
+	abort  uint32
 	pend   pendingOp
 	_      [64]byte
 }
@@ -118,3 +119,11 @@ func (m *mailbox) waitParked(timeoutMs int64) (pendingOp, bool) {
 
 //go:norace
 func (m *mailbox) isParked() bool { return m.parked == 1 }
+
+// setAbort makes the task unwind at its next instruction boundary (used only when draining a run).
+//
+//go:norace
+func (m *mailbox) setAbort() { m.abort = 1 }
+
+//go:norace
+func (m *mailbox) aborted() bool { return m.abort == 1 }
